@@ -61,7 +61,7 @@ theorem mem_setItem {α : Type} (e : Table α) (k : Str) (v : α) (x : Str × α
 
 /-- An instance as it sits in the abstract table (only announceable objects get in). -/
 def tabObj (E : Env) (n : Nat) : Obj :=
-  { path := E.pathOf n, ifaces := E.W.ifaces.map fun f => (f.name, n), sendable := true }
+  { path := E.pathOf n, ifaces := (E.wOf n).ifaces.map fun f => (f.name, n), sendable := true }
 
 theorem absObj_of_some (E : Env) (st : Props.St) (n : Nat) (d : Table PropDict) (h : objDict E st n = some d) :
     absObj E st n = tabObj E n := by
@@ -80,10 +80,10 @@ theorem table_sim (E : Env) (s : State) (h : List Op) :
       simp only [TreeLemmas.runFrom] at ih'
       rw [← ih']
       congr 1
-      cases hd : objDict E s.pst n with
+      cases hd : objDict E (s.stOf E n) n with
       | none => simp [Tree.step, absObj, hd, TreeProps.step]
       | some d =>
-        rw [absObj_of_some E s.pst n d hd]
+        rw [absObj_of_some E (s.stOf E n) n d hd]
         simp [Tree.step, tabObj, TreeProps.step, hd, ← setItem_mapVals]
     | unexport p =>
       simp only [absHistFrom, runFrom, TreeLemmas.runFrom, List.foldl_cons]
@@ -118,35 +118,63 @@ theorem lookup_run_abs (E : Env) (h : List Op) (k : Str) :
 theorem keys_run_abs (E : Env) (h : List Op) : keys (run E h).exports = keys (Tree.run (absHist E h)) := by
   rw [table_eq, keys_mapVals]
 
-/-! ### the property state: C17's state after the projected history -/
+/-! ### the property state of a class: C17's state after the projected history -/
 
-theorem pst_sim (E : Env) (s : State) (h : List Op) :
-    (runFrom E s h).pst = Props.runFrom E.cfg E.W s.pst (propHistFrom E s h) := by
+theorem upd_same (f : Nat → Props.St) (c : Nat) (v : Props.St) : upd f c v c = v := by simp [upd]
+
+theorem upd_other (f : Nat → Props.St) (c c' : Nat) (v : Props.St) (h : c' ≠ c) : upd f c v c' = f c' := by
+  simp [upd, h]
+
+theorem propStep_at (E : Env) (s : State) (n : Nat) (op : Props.Op) (c : Nat) :
+    (propStep E s n op).1 c =
+      if E.cls n = c then (Props.step E.cfg (E.W c) (s.pst c) op).1 else s.pst c := by
+  simp only [propStep, upd, Env.wOf, State.stOf]
+  by_cases h : E.cls n = c
+  · subst h; simp
+  · have : ¬ c = E.cls n := fun x => h x.symm
+    simp [h, this]
+
+theorem pst_sim (E : Env) (c : Nat) (s : State) (h : List Op) :
+    (runFrom E s h).pst c = Props.runFrom E.cfg (E.W c) (s.pst c) (propHistFrom E c s h) := by
   induction h generalizing s with
   | nil => rfl
   | cons op h ih =>
     cases op with
     | «export» n =>
-      simp only [runFrom, propHistFrom, Props.runFrom]
+      simp only [runFrom, propHistFrom]
       rw [ih]
-      cases hd : objDict E s.pst n <;> simp [TreeProps.step, hd]
+      have hst : (step E s (.export n)).state.pst c =
+          if E.cls n = c then (Props.step E.cfg (E.W c) (s.pst c) (.export n)).1 else s.pst c := by
+        cases hd : objDict E (s.stOf E n) n <;> simp [TreeProps.step, hd, propStep_at]
+      rw [hst]
+      by_cases hc : E.cls n = c <;> simp [hc, Props.runFrom]
     | unexport p =>
       simp only [runFrom, propHistFrom]
       rw [ih]
       cases hl : lookup s.exports p <;> simp [TreeProps.step, hl]
     | assign n a v =>
-      simp only [runFrom, propHistFrom, Props.runFrom]
+      simp only [runFrom, propHistFrom]
       rw [ih]
-      simp [TreeProps.step]
+      have hst : (step E s (.assign n a v)).state.pst c =
+          if E.cls n = c then (Props.step E.cfg (E.W c) (s.pst c) (.assign n a v)).1 else s.pst c := by
+        simp [TreeProps.step, propStep_at]
+      rw [hst]
+      by_cases hc : E.cls n = c <;> simp [hc, Props.runFrom]
     | set p i pn v =>
       simp only [runFrom, propHistFrom]
       rw [ih]
       cases hl : lookup s.exports p with
       | none => simp [TreeProps.step, hl]
-      | some n => simp [TreeProps.step, hl, Props.runFrom]
+      | some n =>
+        have hst : (step E s (.set p i pn v)).state.pst c =
+            if E.cls n = c then (Props.step E.cfg (E.W c) (s.pst c) (.set n i pn v)).1 else s.pst c := by
+          simp [TreeProps.step, hl, propStep_at]
+        rw [hst]
+        by_cases hc : E.cls n = c <;> simp [hc, Props.runFrom]
 
-theorem pst_eq (E : Env) (h : List Op) : (run E h).pst = Props.run E.cfg E.W (propHist E h) :=
-  pst_sim E State.init h
+theorem pst_eq (E : Env) (c : Nat) (h : List Op) :
+    (run E h).pst c = Props.run E.cfg (E.W c) (propHist E c h) :=
+  pst_sim E c State.init h
 
 /-- Remote Sets name an interface and carry a value that can have come off the wire (C17's `GoodOp`). -/
 def GoodOps (h : List Op) : Prop :=
@@ -154,8 +182,8 @@ def GoodOps (h : List Op) : Prop :=
     | .set _ i _ v => i ≠ [] ∧ PropsSpec.wireOk v = true
     | _ => True
 
-theorem goodHist_propHistFrom (E : Env) (s : State) (h : List Op) (hg : GoodOps h) :
-    Props.GoodHist (propHistFrom E s h) := by
+theorem goodHist_propHistFrom (E : Env) (c : Nat) (s : State) (h : List Op) (hg : GoodOps h) :
+    Props.GoodHist (propHistFrom E c s h) := by
   induction h generalizing s with
   | nil => intro op hop; cases hop
   | cons op h ih =>
@@ -164,16 +192,20 @@ theorem goodHist_propHistFrom (E : Env) (s : State) (h : List Op) (hg : GoodOps 
     cases op with
     | «export» n =>
       intro o ho
-      simp only [propHistFrom, List.mem_cons] at ho
-      rcases ho with rfl | ho
-      · trivial
+      simp only [propHistFrom, List.mem_append] at ho
+      rcases ho with ho | ho
+      · split at ho
+        · simp at ho; subst ho; trivial
+        · cases ho
       · exact ih _ hg' o ho
     | unexport p => exact ih _ hg'
     | assign n a v =>
       intro o ho
-      simp only [propHistFrom, List.mem_cons] at ho
-      rcases ho with rfl | ho
-      · trivial
+      simp only [propHistFrom, List.mem_append] at ho
+      rcases ho with ho | ho
+      · split at ho
+        · simp at ho; subst ho; trivial
+        · cases ho
       · exact ih _ hg' o ho
     | set p i pn v =>
       intro o ho
@@ -182,8 +214,10 @@ theorem goodHist_propHistFrom (E : Env) (s : State) (h : List Op) (hg : GoodOps 
       · cases hl : lookup s.exports p with
         | none => simp [hl] at ho
         | some n =>
-          simp [hl] at ho; subst ho
-          exact h0
+          simp only [hl] at ho
+          split at ho
+          · simp at ho; subst ho; exact h0
+          · cases ho
       · exact ih _ hg' o ho
 
 /-! ### `objDict` -/
@@ -203,11 +237,11 @@ theorem mapM_isSome {α β : Type} (f : α → Option β) (l : List α) :
 
 theorem ifaceDict_isSome (E : Env) (st : Props.St) (n : Nat) (name : Str) :
     (ifaceDict E st n name).isSome =
-      match Props.getAllProperties E.cfg E.W st n name with
+      match Props.getAllProperties E.cfg (E.wOf n) st n name with
       | some r => r.all fun e => (Props.encodeVariant e.2).isSome
       | none => false := by
   unfold ifaceDict
-  cases Props.getAllProperties E.cfg E.W st n name with
+  cases Props.getAllProperties E.cfg (E.wOf n) st n name with
   | none => rfl
   | some r => simp [mapM_isSome]
 
@@ -223,7 +257,7 @@ theorem objDictFrom_isSome (E : Env) (st : Props.St) (n : Nat) (fs : List Props.
 
 /-- Building the announcement succeeds exactly when C17's `exportOk` says so. -/
 theorem objDict_isSome (E : Env) (st : Props.St) (n : Nat) :
-    (objDict E st n).isSome = Props.exportOk E.cfg E.W st n := by
+    (objDict E st n).isSome = Props.exportOk E.cfg (E.wOf n) st n := by
   rw [objDict, objDictFrom_isSome, Props.exportOk]
   congr 1
   funext f
@@ -277,9 +311,9 @@ theorem objDictFrom_spec (E : Env) (st : Props.St) (n : Nat) (fs : List Props.If
           · exact Or.inr h
 
 theorem objDict_spec (E : Env) (st : Props.St) (n : Nat) (r : Table PropDict) (h : objDict E st n = some r) :
-    (keys r).Nodup ∧ (∀ i, i ∈ keys r ↔ i ∈ E.W.ifaces.map (·.name)) ∧
+    (keys r).Nodup ∧ (∀ i, i ∈ keys r ↔ i ∈ (E.wOf n).ifaces.map (·.name)) ∧
       ∀ i l, (i, l) ∈ r → ifaceDict E st n i = some l := by
-  have := objDictFrom_spec E st n E.W.ifaces [] r (by simp [keys]) (by simp) h
+  have := objDictFrom_spec E st n (E.wOf n).ifaces [] r (by simp [keys]) (by simp) h
   simpa [keys] using this
 
 /-! ### exported instances are attached and sit at their own path -/
@@ -328,31 +362,40 @@ theorem attached_mono (cfg : Props.Cfg) (W : Props.World) (st : Props.St) (op : 
     · exact h
   | getAll o i => simp only [Props.step]; split <;> exact h
 
+theorem attached_propStep (E : Env) (s : State) (m : Nat) (op : Props.Op) (n : Nat)
+    (h : n ∈ (s.stOf E n).attached) : n ∈ ((propStep E s m op).1 (E.cls n)).attached := by
+  rw [propStep_at]
+  split
+  · exact attached_mono _ _ _ _ _ h
+  · exact h
+
 /-- Every instance in the table is attached (its `exportObject` returned) and sits at its own path. -/
 def Inv (E : Env) (s : State) : Prop :=
-  ∀ k n, lookup s.exports k = some n → n ∈ s.pst.attached ∧ E.pathOf n = k
+  ∀ k n, lookup s.exports k = some n → n ∈ (s.stOf E n).attached ∧ E.pathOf n = k
 
 theorem inv_step (E : Env) (s : State) (op : Op) (hI : Inv E s) : Inv E (step E s op).state := by
   intro k m hm
   cases op with
   | «export» n =>
     simp only [TreeProps.step] at hm ⊢
-    cases hd : objDict E s.pst n with
+    cases hd : objDict E (s.stOf E n) n with
     | none =>
       simp only [hd] at hm ⊢
-      exact ⟨attached_mono _ _ _ _ _ (hI k m hm).1, (hI k m hm).2⟩
+      exact ⟨attached_propStep E s n _ m (hI k m hm).1, (hI k m hm).2⟩
     | some d =>
       simp only [hd, lookup_setItem] at hm ⊢
       split at hm
       · rename_i hk
         cases hm
         refine ⟨?_, hk⟩
-        have hok : Props.exportOk E.cfg E.W s.pst m = true := by rw [← objDict_isSome, hd]; rfl
-        simp only [Props.step, hok, if_true]
-        split
-        · assumption
-        · exact List.mem_cons_self
-      · exact ⟨attached_mono _ _ _ _ _ (hI k m hm).1, (hI k m hm).2⟩
+        have hok : Props.exportOk E.cfg (E.wOf m) (s.stOf E m) m = true := by rw [← objDict_isSome, hd]; rfl
+        simp only [State.stOf, propStep, upd_same, Props.step]
+        simp only [State.stOf] at hok
+        simp only [hok, if_true]
+        by_cases hin : m ∈ (s.pst (E.cls m)).attached
+        · rw [if_pos hin]; exact hin
+        · rw [if_neg hin]; exact List.mem_cons_self
+      · exact ⟨attached_propStep E s n _ m (hI k m hm).1, (hI k m hm).2⟩
   | unexport p =>
     simp only [TreeProps.step] at hm ⊢
     cases hl : lookup s.exports p with
@@ -364,14 +407,14 @@ theorem inv_step (E : Env) (s : State) (op : Op) (hI : Inv E s) : Inv E (step E 
       · exact hI k m hm
   | assign n a v =>
     simp only [TreeProps.step] at hm ⊢
-    exact ⟨attached_mono _ _ _ _ _ (hI k m hm).1, (hI k m hm).2⟩
+    exact ⟨attached_propStep E s n _ m (hI k m hm).1, (hI k m hm).2⟩
   | set p i pn v =>
     simp only [TreeProps.step] at hm ⊢
     cases hl : lookup s.exports p with
     | none => simp only [hl] at hm ⊢; exact hI k m hm
     | some n =>
       simp only [hl] at hm ⊢
-      exact ⟨attached_mono _ _ _ _ _ (hI k m hm).1, (hI k m hm).2⟩
+      exact ⟨attached_propStep E s n _ m (hI k m hm).1, (hI k m hm).2⟩
 
 theorem inv_runFrom (E : Env) (s : State) (h : List Op) (hI : Inv E s) : Inv E (runFrom E s h) := by
   induction h generalizing s with
@@ -387,21 +430,21 @@ theorem managedReply_spec (E : Env) (s : State) (p : Str) (ents : List Entry)
     (h : managedReply E s p = some ents) :
     ents.map (·.1) = managedKeys p s.exports ∧
       ∀ k d, (k, d) ∈ ents → k ∈ managedKeys p s.exports ∧
-        ∃ n, lookup s.exports k = some n ∧ objDict E s.pst n = some d := by
+        ∃ n, lookup s.exports k = some n ∧ objDict E (s.stOf E n) n = some d := by
   unfold managedReply at h
   refine ⟨?_, fun k d hm => ?_⟩
   · refine Props.mapM_map_eq (g := fun k => k) (g' := fun (y : Entry) => y.1) (fun x y hxy => ?_) h |>.trans (by simp)
     cases hl : lookup s.exports x with
     | none => simp [hl] at hxy
     | some n =>
-      cases hd : objDict E s.pst n with
+      cases hd : objDict E (s.stOf E n) n with
       | none => simp [hl, hd] at hxy
       | some d => simp [hl, hd] at hxy; rw [← hxy]
   · obtain ⟨x, hx, hfx⟩ := Props.mem_of_mapM_some h (k, d) hm
     cases hl : lookup s.exports x with
     | none => simp [hl] at hfx
     | some n =>
-      cases hd : objDict E s.pst n with
+      cases hd : objDict E (s.stOf E n) n with
       | none => simp [hl, hd] at hfx
       | some d' =>
         simp [hl, hd] at hfx
@@ -409,13 +452,13 @@ theorem managedReply_spec (E : Env) (s : State) (p : Str) (ents : List Entry)
         exact ⟨hx, n, hl, hd⟩
 
 theorem managedReply_isSome (E : Env) (s : State) (p : Str)
-    (h : ∀ k ∈ managedKeys p s.exports, ∃ n, lookup s.exports k = some n ∧ (objDict E s.pst n).isSome = true) :
+    (h : ∀ k ∈ managedKeys p s.exports, ∃ n, lookup s.exports k = some n ∧ (objDict E (s.stOf E n) n).isSome = true) :
     ∃ ents, managedReply E s p = some ents := by
   unfold managedReply
   apply Props.mapM_some_of_forall
   intro k hk
   obtain ⟨n, hn, hd⟩ := h k hk
-  cases hdd : objDict E s.pst n with
+  cases hdd : objDict E (s.stOf E n) n with
   | none => rw [hdd] at hd; cases hd
   | some d => exact ⟨(k, d), by simp [hn, hdd]⟩
 
@@ -442,29 +485,29 @@ theorem nodup_managedKeys {α : Type} (p : Str) (e : Table α) (h : (keys e).Nod
 /-- For an interface the object has, C17's `_dbus_PropertyGetAll` model answers with the marshalled
 `getAllProperties` - the dict this model puts into the GetManagedObjects reply. -/
 theorem opGetAll_of_ifaceDict (E : Env) (st : Props.St) (n : Nat) (i : Str) (l : PropDict)
-    (hi : i ∈ E.W.ifaces.map (·.name)) (hl : ifaceDict E st n i = some l) :
-    Props.opGetAll E.cfg E.W st n i = .retD l := by
+    (hi : i ∈ (E.wOf n).ifaces.map (·.name)) (hl : ifaceDict E st n i = some l) :
+    Props.opGetAll E.cfg (E.wOf n) st n i = .retD l := by
   unfold Props.opGetAll
-  have hno : ¬ (E.cfg.getAllUnknownErr = true ∧ i ≠ [] ∧ (E.W.ifaces.all fun f => decide (f.name ≠ i)) = true) := by
+  have hno : ¬ (E.cfg.getAllUnknownErr = true ∧ i ≠ [] ∧ ((E.wOf n).ifaces.all fun f => decide (f.name ≠ i)) = true) := by
     rintro ⟨_, _, hall⟩
     obtain ⟨f, hf, rfl⟩ := List.mem_map.mp hi
     have := List.all_eq_true.mp hall f hf
     simp at this
   rw [if_neg hno]
   unfold ifaceDict at hl
-  cases hg : Props.getAllProperties E.cfg E.W st n i with
+  cases hg : Props.getAllProperties E.cfg (E.wOf n) st n i with
   | none => simp [hg] at hl
   | some r =>
     simp only [hg, Option.bind_some] at hl
     simp only [hl]
 
 theorem ifaceDict_of_opGetAll (E : Env) (st : Props.St) (n : Nat) (i : Str) (l : PropDict)
-    (h : Props.opGetAll E.cfg E.W st n i = .retD l) : ifaceDict E st n i = some l := by
+    (h : Props.opGetAll E.cfg (E.wOf n) st n i = .retD l) : ifaceDict E st n i = some l := by
   unfold Props.opGetAll at h
   split at h
   · cases h
   · unfold ifaceDict
-    cases hg : Props.getAllProperties E.cfg E.W st n i with
+    cases hg : Props.getAllProperties E.cfg (E.wOf n) st n i with
     | none => simp [hg] at h
     | some r =>
       simp only [hg, Option.bind_some] at h ⊢
